@@ -30,7 +30,8 @@ CFG = dict(
     ],
     helper_theorems=["sphereHit_eq", "rectHit_eq", "rayIntersectsTri_eq", "prim_box_wf'", "listHit_guard", "listHit_congr_on"],
     streams=[dict(name="c16", n=dict(quick=150, thorough=6000)),
-             dict(name="c16prims", n=dict(quick=400, thorough=20000))],
+             dict(name="c16prims", n=dict(quick=400, thorough=20000)),
+             dict(name="c16more", n=dict(quick=120, thorough=5000))],
     trusted=T_COMMON + [
         "Model/RenderPrims.lean is a hand transcription of the arithmetic of Sphere.Hit/BoundingBox, XYRectangle.Hit/BoundingBox, rayIntersectsTri, "
         "Triangle.Hit, Mesh.Hit/Hit2 (rendering/*.go); tied by bit-exact correspondence (stream c16prims: flag, Distance, Point, box)",
@@ -104,7 +105,9 @@ CFG = dict(
              "closest element/distance/point and the slab test exactly (points, line strips, boxes, triangles; depths 0–6 and automatic; queries "
              "inside, outside, exactly on element vertices; axis-parallel rays incl. origins exactly on the widened face, both signs of zero). "
              "Primitives and Mesh: Hit / BoundingBox of spheres, rectangles, one-triangle BVH nodes, one-object NewBVHTree nodes and Mesh.Hit / Hit2 "
-             "reproduced bit-for-bit by Model/RenderPrims.lean (stream c16prims). Oracles: the real octree's answers against an exhaustive scan done by the Go harness through the same trees.Element interfaces "
+             "reproduced bit-for-bit by Model/RenderPrims.lean (stream c16prims). Stream c16more: radius queries with the radius exactly an element's "
+             "distance / its float neighbours / negative / underflowing / 0; animated spheres in BVHs built over non-trivial time intervals with rays at random "
+             "times; BoundingBox asked repeatedly with different intervals on the same object (history class). Oracles: the real octree's answers against an exhaustive scan done by the Go harness through the same trees.Element interfaces "
              "(both id lists computed in Go, compared by the driver); rendering BVHNode.Hit / Mesh.Hit / Tree.Hit vs HitList.Hit and vs the "
              "per-primitive scan on triangles and spheres (minDistance = 0).",
         note="Trusted: Lean kernel + propext/Classical.choice/Quot.sound; translator; harness; hand transcription of octree.go / bvh.go / hit.go / the slab "
